@@ -461,38 +461,38 @@ def run(ck):
     for c in corpus_cases():
         groups_in[c["kind"]].append(input_from_json(c["kind"], c["input"]))
         ncorpus += 1
-    for _ in range(ck.n(300, 12000)):
+    for _ in range(ck.n(300, 4000)):
         groups_in["const"].append(gen_const(rng, rng.choice([0, 1, 2, 2, 3] if ck.quick else [0, 1, 2, 3, 4])))
     nexh = 0
     if not ck.quick:
         ex = exhaustive_items()
         nexh = len(ex)
         groups_in["const"] += ex
-    for _ in range(ck.n(120, 5000)):
+    for _ in range(ck.n(120, 1500)):
         groups_in["atom"].append(gen_atom(rng, rng.choice([0, 1, 2]), 0.25))
-    for _ in range(ck.n(100, 4000)):
+    for _ in range(ck.n(100, 1500)):
         groups_in["term"].append(("app", rng.choice(FNS), [gen_base(rng, 2, 0.3, 0.4) for _ in range(rng.choice([0, 1, 2, 3]))]))
-    for _ in range(ck.n(600, 30000)):
+    for _ in range(ck.n(600, 15000)):
         groups_in["clause"].append(gen_clause(rng))
     ck.log("generated; running the Go round trips")
     groups = {k: run_group(ck, k, groups_in[k]) for k in ("const", "atom", "term", "clause")}
     # texts for the parser correspondence: printed constants and atoms, mutants of them, hand-written near misses
     printed = [bytes.fromhex(o["out"]["s"]) for k in ("const", "atom", "term") for _, o, _ in groups[k] if "out" in o]
     texts = list(NEAR_MISSES) + groups_in["parse"]
-    nmut = ck.n(350, 12000)
+    nmut = ck.n(350, 4000)
     pool = [s for s in printed if len(s) <= 120]
     for _ in range(nmut):
         s = mutate_text(rng, rng.choice(pool))
         if b"<" in s and re.search(rb"\.[A-Z]", s):
             continue      # `.Type<...>` syntax is not modelled
         texts.append(s)
-    for s in rng.sample(pool, min(len(pool), ck.n(60, 2000))):
+    for s in rng.sample(pool, min(len(pool), ck.n(60, 600))):
         texts.append(s)
     groups["parse"] = run_group(ck, "parse", texts)
     # escape / unescape on arbitrary byte strings
     un, es = list(groups_in["unescape"]), list(groups_in["escape"])
     ualpha = b"\\\\\\\\xxuu{{}}nt\"'`\n\r\r0123456789abcdefABCDEFg qz\x00\x7f"
-    for _ in range(ck.n(250, 10000)):
+    for _ in range(ck.n(250, 3000)):
         n = rng.choice([0, 1, 2, 3, 4, 6, 9, 12])
         s = bytearray()
         for _ in range(n):
@@ -506,7 +506,7 @@ def run(ck):
             else:
                 s.append(rng.randrange(256))
         un.append((bytes(s), rng.random() < 0.4))
-    for _ in range(ck.n(150, 6000)):
+    for _ in range(ck.n(150, 2000)):
         b = rng.random() < 0.4
         q = rng.random()
         s = gen_string(rng) if q < 0.6 else bytes(rng.randrange(256) for _ in range(rng.choice([1, 2, 3, 5])))
